@@ -97,6 +97,9 @@ class SchedBackend(AutoBatchingMixin, ParallelBackendBase):
         self.parallel = parallel
         self.eng.backend_parallel = parallel
         self.eng.ev("configure", n_jobs=n_jobs)
+        # hook at the very start of a call (after joblib has reset its per-call flags): completions of batches that an
+        # earlier, failed or abandoned, call left behind can be made to arrive exactly here
+        self.eng.gate("configure", 0)
         return self.effective_n_jobs(n_jobs)
 
     def start_call(self):
